@@ -26,6 +26,11 @@ CHECKS["C05"] = dict(
    note="thresholds and batch counts >= 1; a batch on a per-value counter may weigh 1..n (either accepted); bounded scope for the exhaustive part",
    technique="TLA+ spec Entry.tla; TLC model checking; TLC-generated behaviours replayed into the code; TLC trace validation of recorded executions",
    ref="DESIGN.md §6 C05")
+CHECKS["C06"] = dict(
+   text="TLC model-checks the token-bucket specification (capacity q_v+b, lazy refill, per-value override, consultation order of several rules) with the bound admitted <= q+b+q*(t-first)/d as an invariant; TLC behaviours (gaps of exactly d and d+1 ms, bursts, batches, two values, overrides incl. 0) and random histories with 1-4 values, positional/keyed parameters and 1-2 rules are executed through EntryBuilder on the real code; TLC validates every decision and the reported rule, so cross-talk between values or a wrong refill shows as a rejected trace",
+   note="reference = lazily refilled bucket as the property describes; sequential requests; values within capacity; bounded scope for the exhaustive part",
+   technique="TLA+ spec HotspotQps.tla; TLC model checking; TLC-generated behaviours replayed into the code; TLC trace validation of recorded executions",
+   ref="DESIGN.md §6 C06")
 NOT_APPLICABLE = {}
 
 def main():
